@@ -82,3 +82,39 @@ Example seek_example :
      OkRead nat 1 [5; 6]; OkRead nat 1 [7];
      OkNum nat 3; OkBool nat false; OkRead nat 0 []; OkBool nat true].
 Proof. split; [right; right; auto|vm_compute; reflexivity]. Qed.
+
+(* non-vacuity of the text round trip: ASCII classes are disjoint, and two records survive *)
+From CelloV Require Import FileText.
+
+Lemma x_ws_not_digit : forall b, xws b = true -> xdigit b = false.
+Proof.
+  intros b H. unfold xws, xdigit in *. apply orb_true_iff in H.
+  destruct H as [H|H]; apply Nat.eqb_eq in H; subst; reflexivity.
+Qed.
+Lemma x_digit_not_sign : forall b, xdigit b = true -> xsign b = false.
+Proof.
+  intros b H. unfold xdigit, xsign in *. apply andb_true_iff in H. destruct H as [H1 H2].
+  apply Nat.leb_le in H1. destruct (Nat.eqb_spec b 45); [lia|]. destruct (Nat.eqb_spec b 43); [lia|]. reflexivity.
+Qed.
+Lemma x_sign_not_ws : forall b, xsign b = true -> xws b = false.
+Proof.
+  intros b H. unfold xws, xsign in *. apply orb_true_iff in H.
+  destruct H as [H|H]; apply Nat.eqb_eq in H; subst; reflexivity.
+Qed.
+
+Definition xrec1 : trec nat := mkR nat [45] [55] [119; 111].               (* -7 wo *)
+Definition xrec2 : trec nat := mkR nat [] [49; 50] [104; 101; 108; 108; 111].   (* 12 hello *)
+
+Example text_example :
+  well_formed nat xws xdigit xsign xrec1 /\ well_formed nat xws xdigit xsign xrec2 /\
+  snd (xrun true true (text_history nat 32 10 2 1 MW MR [xrec1; xrec2]))
+  = [OkUnit nat; OkUnit nat; OkUnit nat; OkUnit nat; OkUnit nat;
+     OkScan nat [45; 55] [119; 111]; OkScan nat [49; 50] [104; 101; 108; 108; 111];
+     OkBool nat true; ORaise nat FFormatError].
+Proof.
+  split; [|split].
+  - unfold well_formed, xrec1; simpl. repeat split; try discriminate; auto.
+    right. exists 45. auto.
+  - unfold well_formed, xrec2; simpl. repeat split; try discriminate; auto 10.
+  - vm_compute. reflexivity.
+Qed.
